@@ -47,6 +47,9 @@ type sqv struct {
 	n    int
 	kids []*sqv
 	tail *sqv // '(' only: the tail of a dotted pair
+	// fresh: in an expected result (ch_sq_hist.go), a container built by the template itself
+	// (not part of the value of an unquoted expression)
+	fresh bool
 }
 
 func (v *sqv) tokens(out *[]string) {
@@ -416,6 +419,14 @@ func sqExec(toks []string) string {
 			return "bad-op"
 		}
 		return sqExecM(toks[1], n, toks[3:])
+	case "h":
+		n, err := strconv.Atoi(toks[2])
+		if err != nil {
+			return "bad-op"
+		}
+		return sqExecH(toks[1], n, toks[3:])
+	case "k":
+		return sqExecK(toks[1:])
 	}
 	return "bad-op"
 }
@@ -1178,6 +1189,10 @@ func sqGenMain(g *Gen) {
 			}
 		}
 	}
+	// 5. freshness: one template evaluated repeatedly, earlier results mutated in place (ch_sq_hist.go)
+	sqGenHist(g)
+	// 6. call-site contexts: macro call vs the expansion written by hand (ch_sq_ctx.go)
+	sqGenCtx(g)
 }
 
 func init() {
